@@ -1989,9 +1989,12 @@ class XNor(Any):
     """
 
     def __init__(self, *propositions, variable: typing.Union[puan.variable, str] = None):
+        # negating "at most one" never moves the negation inwards, so that
+        # sub proposition still holds the propositions as they were given
+        self._at_most_one_negated = AtMost(value=1, propositions=propositions).negate()
         super().__init__(
             AtLeast(value=1, propositions=propositions).negate(), 
-            AtMost(value=1, propositions=propositions).negate(), 
+            self._at_most_one_negated, 
             variable=variable,
         )
 
@@ -2047,9 +2050,9 @@ class XNor(Any):
             'propositions': list(
                 map(
                     maz.compose(operator.methodcaller("to_json")),
-                    self.propositions[0].negate().propositions
+                    self._at_most_one_negated.propositions
                 )
-            ) if len(self.propositions) > 0 else [],
+            ),
         }
         if not self.generated_id:
             d['id'] = self.id
